@@ -23,6 +23,8 @@ type HarnessSpec struct {
 	Quick           map[string]int            `json:"quick"`
 	Thorough        map[string]int            `json:"thorough"`
 	Stubs           map[string]string         `json:"stubs,omitempty"`
+	StubSets        []string                  `json:"stubsets,omitempty"`
+	TabSets         []string                  `json:"tabsets,omitempty"`
 	Tabulate        []string                  `json:"tabulate,omitempty"`
 	MapOrder        bool                      `json:"maporder,omitempty"`
 	BudgetViolation bool                      `json:"budget_violation,omitempty"`
@@ -98,6 +100,16 @@ func cmdCheck(args []string) {
 	if err := loadJSON(filepath.Join(verifDir, "checks.json"), &reg); err != nil {
 		fatal2("cannot read checks.json: %v", err)
 	}
+	var sets struct {
+		Stubs map[string]map[string]string `json:"stubsets"`
+		Tabs  map[string]struct {
+			Funcs  []string       `json:"funcs"`
+			Bounds map[string]int `json:"bounds"`
+		} `json:"tabsets"`
+	}
+	if err := loadJSON(filepath.Join(verifDir, "checksets.json"), &sets); err != nil {
+		fatal2("cannot read checksets.json: %v", err)
+	}
 	spec, ok := reg[id]
 	if !ok {
 		fatal2("no check registered for %s", id)
@@ -117,6 +129,7 @@ func cmdCheck(args []string) {
 
 	var reports []*sym.Report
 	inconclusive := map[string]int{}
+	reachAgg := map[string]int{}
 	for _, h := range spec.Harnesses {
 		if *onlyH != "" && !strings.Contains(h.Fn, *onlyH) {
 			continue
@@ -140,7 +153,34 @@ func cmdCheck(args []string) {
 			for k, v := range inst {
 				bounds[k] = v
 			}
-			cfg := sym.Config{Pkg: h.Pkg, Harness: h.Fn, Bounds: bounds, Stubs: h.Stubs, Tabulate: h.Tabulate,
+			stubs := map[string]string{}
+			for _, name := range h.StubSets {
+				set, ok := sets.Stubs[name]
+				if !ok {
+					fatal2("unknown stubset %s", name)
+				}
+				for k, v := range set {
+					if h.Pkg != "" && strings.HasPrefix(v, h.Pkg+".") {
+						v = strings.TrimPrefix(v, h.Pkg+".")
+					}
+					stubs[k] = v
+				}
+			}
+			for k, v := range h.Stubs {
+				stubs[k] = v
+			}
+			tabulate := append([]string{}, h.Tabulate...)
+			for _, name := range h.TabSets {
+				set, ok := sets.Tabs[name]
+				if !ok {
+					fatal2("unknown tabset %s", name)
+				}
+				tabulate = append(tabulate, set.Funcs...)
+				for k, v := range set.Bounds {
+					bounds[k] = v
+				}
+			}
+			cfg := sym.Config{Pkg: h.Pkg, Harness: h.Fn, Bounds: bounds, Stubs: stubs, Tabulate: tabulate,
 				MapOrderAny: h.MapOrder, BudgetViolation: h.BudgetViolation, StepBudget: h.StepBudget,
 				DepthBudget: h.DepthBudget, LockMonitor: h.LockMonitor, Workers: *workers, MaxPaths: h.MaxPaths,
 				SolverTimeoutMs: h.TimeoutMs}
@@ -164,12 +204,20 @@ func cmdCheck(args []string) {
 			for k, n := range rep.Inconclusive {
 				inconclusive[h.Fn+": "+k] += n
 			}
-			// vacuity: every Reach id must be hit
+			// vacuity: every Reach id must be hit in at least one instance of the harness
 			for rid, n := range rep.Reach {
-				if n == 0 {
-					inconclusive[fmt.Sprintf("%s: reach witness %s never satisfied (vacuous harness?) bounds=%v", h.Fn, rid, bounds)]++
+				key := h.Fn + ": reach witness " + rid
+				if _, ok := reachAgg[key]; !ok {
+					reachAgg[key] = 0
 				}
+				reachAgg[key] += n
 			}
+		}
+	}
+
+	for key, n := range reachAgg {
+		if n == 0 {
+			inconclusive[key+" never satisfied in any instance (vacuous harness?)"]++
 		}
 	}
 
@@ -182,8 +230,14 @@ func cmdCheck(args []string) {
 	}
 	groups := map[string]*group{}
 	var gorder []string
+	otherProps := map[string]int{}
 	for _, rep := range reports {
 		for _, v := range rep.Violations {
+			if v.Kind == "assert" && !strings.HasPrefix(v.ID, id+".") {
+				// assertion of another property hosted by the same harness: reported by that property's check
+				otherProps[v.ID]++
+				continue
+			}
 			key := v.Harness + "|" + v.Kind + "|" + v.ID + "|" + siteFunc(v.Site) + "|" + v.Msg
 			g := groups[key]
 			if g == nil {
@@ -195,6 +249,9 @@ func cmdCheck(args []string) {
 		}
 	}
 	sort.Strings(gorder)
+	for oid, n := range otherProps {
+		fmt.Printf("note: %d violation(s) of assertion %s belong to another property's check\n", n, oid)
+	}
 	var newViolations []confirmed
 	knownPrinted := map[string]bool{}
 	unconfirmed := 0
@@ -629,7 +686,7 @@ func (r *replayer) replay(v sym.Violation, path string) (string, bool) {
 
 func buildEvidence(id, tier string, seed int, spec CheckSpec, reports []*sym.Report, inconclusive map[string]int,
 	nViol, tracesValidated, unconfirmed int, loadTime, wall time.Duration, knownPrinted map[string]bool) map[string]interface{} {
-	paths, queries, steps := 0, 0, int64(0)
+	paths, queries, steps, domDecided, assertPaths := 0, 0, int64(0), 0, 0
 	obligations, discharged, trivial, violated, unknown := 0, 0, 0, 0, 0
 	reachHit, reachTotal := 0, 0
 	var solverTime time.Duration
@@ -641,9 +698,14 @@ func buildEvidence(id, tier string, seed int, spec CheckSpec, reports []*sym.Rep
 		paths += rep.Paths
 		queries += rep.Queries
 		steps += rep.Steps
+		domDecided += rep.DomDecided
+		assertPaths += rep.AssertPaths
 		solverTime += rep.SolverTime
 		asserts := map[string]interface{}{}
 		for aid, a := range rep.Asserts {
+			if !strings.HasPrefix(aid, id+".") {
+				continue
+			}
 			obligations += a.Checked
 			discharged += a.Discharged
 			trivial += a.Trivial
@@ -703,17 +765,21 @@ func buildEvidence(id, tier string, seed int, spec CheckSpec, reports []*sym.Rep
 		sites = append(sites, s)
 	}
 	sort.Strings(sites)
-	nontrivial := discharged + violated
+	nontrivial := assertPaths
+	_ = nontrivial
 	cov := map[string]interface{}{
 		"explanation": "Bounded symbolic execution of the real Go code (SSA rebuilt from /repo's working tree on this run) with z3 deciding every branch-feasibility and assertion query; inputs within the stated bounds are symbolic bit-vectors, so each discharged obligation holds for all of them; counterexamples are replayed against the natively compiled code before being reported.",
 		"states":      paths,
-		"transitions": queries,
+		"transitions": queries + domDecided,
+		"solver_queries": queries,
+		"branch_decisions_by_byte_domain_enumeration": domDecided,
 		"traces_validated_against_impl": tracesValidated,
 		"evaluations":         paths,
 		"distinct_nontrivial": nontrivial,
-		"rule":                "evaluations = feasible execution paths explored (each path is a distinct set of inputs characterised by its path condition); distinct_nontrivial = assertion instances on distinct paths whose condition did not fold to a constant and which were sent to the SMT solver (unsat = holds for every input on that path, sat = counterexample)",
-		"obligations":         obligations,
-		"discharged":          discharged,
+		"rule":                "evaluations = feasible execution paths explored (each path is a distinct class of inputs characterised by its path condition, all byte values of the class covered at once); distinct_nontrivial = those paths on which at least one assertion of this property was evaluated; an assertion instance is discharged either by an unsat answer for PC and not(c), or because c folded to true under a path condition whose every branch was decided by the solver (or by exhaustive evaluation over a single byte's 256 values)",
+		"obligations":         obligations + trivial,
+		"discharged":          discharged + trivial,
+		"discharged_by_solver_query": discharged,
 		"trivially_true":      trivial,
 		"violated":            violated,
 		"solver_unknown":      unknown,
